@@ -57,6 +57,27 @@ def _raised(exc, depth=2):
         return ex
 
 
+ML_TEXT = [False]
+
+
+class MultiRepr:
+    """an object whose repr spans several lines (numpy arrays and the like)"""
+
+    def __init__(self, tok):
+        self.tok = tok
+
+    def __repr__(self):
+        return "<%s [[1, 2],\n       [3, 4]]\r\n>" % self.tok
+
+
+def _text(tok, as_obj):
+    if tok is None or not ML_TEXT[0]:
+        return tok
+    if as_obj:
+        return MultiRepr(tok)
+    return "%s(first,\n  second)" % tok
+
+
 def build_stack(s):
     err = None
     kind = s.get("error")
@@ -78,7 +99,8 @@ def build_stack(s):
                 raise ValueError("er1") from inner
         except ValueError as ex:
             err = ex
-    return Stack(root=s.get("root"), frames=[build_frame(f) for f in s["frames"]], leaf=s.get("leaf"), error=err)
+    return Stack(root=_text(s.get("root"), True), frames=[build_frame(f) for f in s["frames"]],
+                 leaf=_text(s.get("leaf"), True), error=err)
 
 
 def build_frame(f):
@@ -98,7 +120,7 @@ def build_ctx(c):
     elif c.get("obj") == "obj":
         obj = Obj("k")
     ctx = Context(obj=obj, is_async=c.get("is_async", False), is_exiting=c.get("is_exiting", False),
-                  varname=c.get("varname"), start_line=c.get("start_line"), description=c.get("description"),
+                  varname=c.get("varname"), start_line=c.get("start_line"), description=_text(c.get("description"), False),
                   hide=c.get("hide", False))
     if c.get("inner") is not None:
         ctx.inner_stack = build_stack(c["inner"])
@@ -118,7 +140,11 @@ def combos():
 
 def run_c18(req):
     init()
-    st = build_stack(req["tree"])
+    ML_TEXT[0] = bool(req["tree"].get("ml_text"))
+    try:
+        st = build_stack(req["tree"])
+    finally:
+        ML_TEXT[0] = False
     out = {"fmt": {}, "raised": None}
     try:
         for a, sc, sh in combos():
